@@ -39,6 +39,7 @@ package sshd
 //@   modifies out
 //@   allocates
 //@   ensures[err] result != nil ==> len(out) == old(len(out)) && wfailed
+//@   ensures[werr] wfailed && !old(wfailed) ==> result != nil
 //@   ensures[one] len(out) == old(len(out)) || len(out) == old(len(out)) + 1
 //@   ensures[match] result == nil && matches(notInAllowUsersRE, config.logEntry) ==> len(out) == old(len(out)) + 1
 //@   ensures[only] len(out) == old(len(out)) + 1 ==> matches(notInAllowUsersRE, config.logEntry) && result == nil
@@ -57,6 +58,7 @@ package sshd
 //@   modifies out
 //@   allocates
 //@   ensures[err] result != nil ==> len(out) == old(len(out)) && wfailed
+//@   ensures[werr] wfailed && !old(wfailed) ==> result != nil
 //@   ensures[one] len(out) == old(len(out)) || len(out) == old(len(out)) + 1
 //@   ensures[match] result == nil && matches(userInDenyUsersRE, config.logEntry) ==> len(out) == old(len(out)) + 1
 //@   ensures[only] len(out) == old(len(out)) + 1 ==> matches(userInDenyUsersRE, config.logEntry) && result == nil
@@ -75,6 +77,7 @@ package sshd
 //@   modifies out
 //@   allocates
 //@   ensures[err] result != nil ==> len(out) == old(len(out)) && wfailed
+//@   ensures[werr] wfailed && !old(wfailed) ==> result != nil
 //@   ensures[one] len(out) == old(len(out)) || len(out) == old(len(out)) + 1
 //@   ensures[match] result == nil && matches(userNotInAnyGroupRE, config.logEntry) ==> len(out) == old(len(out)) + 1
 //@   ensures[only] len(out) == old(len(out)) + 1 ==> matches(userNotInAnyGroupRE, config.logEntry) && result == nil
@@ -93,6 +96,7 @@ package sshd
 //@   modifies out
 //@   allocates
 //@   ensures[err] result != nil ==> len(out) == old(len(out)) && wfailed
+//@   ensures[werr] wfailed && !old(wfailed) ==> result != nil
 //@   ensures[one] len(out) == old(len(out)) || len(out) == old(len(out)) + 1
 //@   ensures[match] result == nil && matches(userGroupInDenyGroupsRE, config.logEntry) ==> len(out) == old(len(out)) + 1
 //@   ensures[only] len(out) == old(len(out)) + 1 ==> matches(userGroupInDenyGroupsRE, config.logEntry) && result == nil
@@ -111,6 +115,7 @@ package sshd
 //@   modifies out
 //@   allocates
 //@   ensures[err] result != nil ==> len(out) == old(len(out)) && wfailed
+//@   ensures[werr] wfailed && !old(wfailed) ==> result != nil
 //@   ensures[one] len(out) == old(len(out)) || len(out) == old(len(out)) + 1
 //@   ensures[match] result == nil && matches(userGroupNotListedInAllowGroupsRE, config.logEntry) ==> len(out) == old(len(out)) + 1
 //@   ensures[only] len(out) == old(len(out)) + 1 ==> matches(userGroupNotListedInAllowGroupsRE, config.logEntry) && result == nil
@@ -129,6 +134,7 @@ package sshd
 //@   modifies out
 //@   allocates
 //@   ensures[err] result != nil ==> len(out) == old(len(out)) && wfailed
+//@   ensures[werr] wfailed && !old(wfailed) ==> result != nil
 //@   ensures[one] len(out) == old(len(out)) || len(out) == old(len(out)) + 1
 //@   ensures[match] result == nil && matches(userNonExistentShellRE, config.logEntry) ==> len(out) == old(len(out)) + 1
 //@   ensures[only] len(out) == old(len(out)) + 1 ==> matches(userNonExistentShellRE, config.logEntry) && result == nil
@@ -147,6 +153,7 @@ package sshd
 //@   modifies out
 //@   allocates
 //@   ensures[err] result != nil ==> len(out) == old(len(out)) && wfailed
+//@   ensures[werr] wfailed && !old(wfailed) ==> result != nil
 //@   ensures[one] len(out) == old(len(out)) || len(out) == old(len(out)) + 1
 //@   ensures[match] result == nil && matches(userNonExecutableShellRE, config.logEntry) ==> len(out) == old(len(out)) + 1
 //@   ensures[only] len(out) == old(len(out)) + 1 ==> matches(userNonExecutableShellRE, config.logEntry) && result == nil
@@ -165,6 +172,7 @@ package sshd
 //@   modifies out
 //@   allocates
 //@   ensures[err] result != nil ==> len(out) == old(len(out)) && wfailed
+//@   ensures[werr] wfailed && !old(wfailed) ==> result != nil
 //@   ensures[one] len(out) == old(len(out)) || len(out) == old(len(out)) + 1
 //@   ensures[match] result == nil && matches(rootLoginRefusedRE, config.logEntry) ==> len(out) == old(len(out)) + 1
 //@   ensures[only] len(out) == old(len(out)) + 1 ==> matches(rootLoginRefusedRE, config.logEntry) && result == nil
@@ -183,6 +191,7 @@ package sshd
 //@   modifies out
 //@   allocates
 //@   ensures[err] result != nil ==> len(out) == old(len(out)) && wfailed
+//@   ensures[werr] wfailed && !old(wfailed) ==> result != nil
 //@   ensures[one] len(out) == old(len(out)) || len(out) == old(len(out)) + 1
 //@   ensures[match] result == nil && matches(badOwnerOrModesForHostFileRE, config.logEntry) ==> len(out) == old(len(out)) + 1
 //@   ensures[only] len(out) == old(len(out)) + 1 ==> matches(badOwnerOrModesForHostFileRE, config.logEntry) && result == nil
@@ -201,6 +210,7 @@ package sshd
 //@   modifies out
 //@   allocates
 //@   ensures[err] result != nil ==> len(out) == old(len(out)) && wfailed
+//@   ensures[werr] wfailed && !old(wfailed) ==> result != nil
 //@   ensures[one] len(out) == old(len(out)) || len(out) == old(len(out)) + 1
 //@   ensures[match] result == nil && matches(maxAuthAttemptsExceededRE, config.logEntry) ==> len(out) == old(len(out)) + 1
 //@   ensures[only] len(out) == old(len(out)) + 1 ==> matches(maxAuthAttemptsExceededRE, config.logEntry) && result == nil
@@ -219,6 +229,7 @@ package sshd
 //@   modifies out
 //@   allocates
 //@   ensures[err] result != nil ==> len(out) == old(len(out)) && wfailed
+//@   ensures[werr] wfailed && !old(wfailed) ==> result != nil
 //@   ensures[one] len(out) == old(len(out)) || len(out) == old(len(out)) + 1
 //@   ensures[match] result == nil && matches(failedPasswordAuthRE, config.logEntry) ==> len(out) == old(len(out)) + 1
 //@   ensures[only] len(out) == old(len(out)) + 1 ==> matches(failedPasswordAuthRE, config.logEntry) && result == nil
@@ -237,6 +248,7 @@ package sshd
 //@   modifies out
 //@   allocates
 //@   ensures[err] result != nil ==> len(out) == old(len(out)) && wfailed
+//@   ensures[werr] wfailed && !old(wfailed) ==> result != nil
 //@   ensures[one] len(out) == old(len(out)) || len(out) == old(len(out)) + 1
 //@   ensures[match] result == nil && matches(nastyPTRRecordRE, config.logEntry) ==> len(out) == old(len(out)) + 1
 //@   ensures[only] len(out) == old(len(out)) + 1 ==> matches(nastyPTRRecordRE, config.logEntry) && result == nil
@@ -255,6 +267,7 @@ package sshd
 //@   modifies out
 //@   allocates
 //@   ensures[err] result != nil ==> len(out) == old(len(out)) && wfailed
+//@   ensures[werr] wfailed && !old(wfailed) ==> result != nil
 //@   ensures[one] len(out) == old(len(out)) || len(out) == old(len(out)) + 1
 //@   ensures[match] result == nil && matches(reverseMappingCheckFailedRE, config.logEntry) ==> len(out) == old(len(out)) + 1
 //@   ensures[only] len(out) == old(len(out)) + 1 ==> matches(reverseMappingCheckFailedRE, config.logEntry) && result == nil
@@ -273,6 +286,7 @@ package sshd
 //@   modifies out
 //@   allocates
 //@   ensures[err] result != nil ==> len(out) == old(len(out)) && wfailed
+//@   ensures[werr] wfailed && !old(wfailed) ==> result != nil
 //@   ensures[one] len(out) == old(len(out)) || len(out) == old(len(out)) + 1
 //@   ensures[match] result == nil && matches(doesNotMapBackToAddrRE, config.logEntry) ==> len(out) == old(len(out)) + 1
 //@   ensures[only] len(out) == old(len(out)) + 1 ==> matches(doesNotMapBackToAddrRE, config.logEntry) && result == nil
@@ -291,6 +305,7 @@ package sshd
 //@   modifies out
 //@   allocates
 //@   ensures[err] result != nil ==> len(out) == old(len(out)) && wfailed
+//@   ensures[werr] wfailed && !old(wfailed) ==> result != nil
 //@   ensures[one] len(out) == old(len(out)) || len(out) == old(len(out)) + 1
 //@   ensures[match] result == nil && matches(revokedPublicKeyByFileRE, config.logEntry) ==> len(out) == old(len(out)) + 1
 //@   ensures[only] len(out) == old(len(out)) + 1 ==> matches(revokedPublicKeyByFileRE, config.logEntry) && result == nil
@@ -311,6 +326,7 @@ package sshd
 //@   modifies out
 //@   allocates
 //@   ensures[err] result != nil ==> len(out) == old(len(out)) && wfailed
+//@   ensures[werr] wfailed && !old(wfailed) ==> result != nil
 //@   ensures[one] len(out) == old(len(out)) || len(out) == old(len(out)) + 1
 //@   ensures[match] result == nil && matches(revokedPublicKeyByFileErrRE, config.logEntry) ==> len(out) == old(len(out)) + 1
 //@   ensures[only] len(out) == old(len(out)) + 1 ==> matches(revokedPublicKeyByFileErrRE, config.logEntry) && result == nil
@@ -331,6 +347,7 @@ package sshd
 //@   modifies out, ctr
 //@   allocates
 //@   ensures[err] result != nil ==> len(out) == old(len(out)) && wfailed
+//@   ensures[werr] wfailed && !old(wfailed) ==> result != nil
 //@   ensures[one] len(out) == old(len(out)) || len(out) == old(len(out)) + 1
 //@   ensures[match] result == nil && matches(invalidUserRE, config.logEntry) ==> len(out) == old(len(out)) + 1
 //@   ensures[only] len(out) == old(len(out)) + 1 ==> matches(invalidUserRE, config.logEntry) && result == nil
@@ -354,6 +371,7 @@ package sshd
 //@   modifies out, chans
 //@   allocates
 //@   ensures[err] result != nil ==> len(out) == old(len(out)) && wfailed && sentlen(config.logins) == old(sentlen(config.logins))
+//@   ensures[werr] wfailed && !old(wfailed) ==> result != nil
 //@   ensures[one] len(out) == old(len(out)) || len(out) == old(len(out)) + 1
 //@   ensures[sendone] sentlen(config.logins) == old(sentlen(config.logins)) || sentlen(config.logins) == old(sentlen(config.logins)) + 1
 //@   ensures[cancel] len(out) == old(len(out)) + 1 && sentlen(config.logins) == old(sentlen(config.logins)) ==> cancelled(config.ctx)
@@ -377,6 +395,7 @@ package sshd
 //@   modifies out, ctr, chans
 //@   allocates
 //@   ensures[err] result != nil ==> len(out) == old(len(out)) && wfailed && sentlen(config.logins) == old(sentlen(config.logins))
+//@   ensures[werr] wfailed && !old(wfailed) ==> result != nil
 //@   ensures[one] len(out) == old(len(out)) || len(out) == old(len(out)) + 1
 //@   ensures[sendone] sentlen(config.logins) == old(sentlen(config.logins)) || sentlen(config.logins) == old(sentlen(config.logins)) + 1
 //@   ensures[cancel] len(out) == old(len(out)) + 1 && sentlen(config.logins) == old(sentlen(config.logins)) ==> cancelled(config.ctx)
@@ -401,6 +420,7 @@ package sshd
 //@   modifies out, ctr
 //@   allocates
 //@   ensures[err] result != nil ==> len(out) == old(len(out)) && wfailed
+//@   ensures[werr] wfailed && !old(wfailed) ==> result != nil
 //@   ensures[one] len(out) == old(len(out)) || len(out) == old(len(out)) + 1
 //@   ensures[match] result == nil ==> len(out) == old(len(out)) + 1
 //@   ensures[only] len(out) == old(len(out)) + 1 ==> result == nil
@@ -419,6 +439,7 @@ package sshd
 //@   modifies out, ctr, chans
 //@   allocates
 //@   ensures[err] result != nil ==> wfailed && len(out) == old(len(out)) && sentlen(config.logins) == old(sentlen(config.logins))
+//@   ensures[werr] wfailed && !old(wfailed) ==> result != nil
 //@   ensures[one] len(out) == old(len(out)) || len(out) == old(len(out)) + 1
 //@   ensures[sendone] sentlen(config.logins) == old(sentlen(config.logins)) || sentlen(config.logins) == old(sentlen(config.logins)) + 1
 //@   ensures[send] sentlen(config.logins) == old(sentlen(config.logins)) + 1 ==> len(out) == old(len(out)) + 1 && out[old(len(out))].Outcome == "succeeded"
@@ -462,6 +483,7 @@ package sshd
 //@   ensures[traced] g_sshd_calls == old(g_sshd_calls) + 1 && g_sshd_pid == sm.PID && g_sshd_msg == sm.Message && g_sshd_ctx == ctx
 //@   allocates
 //@   ensures[err] result != nil ==> wfailed && len(out) == old(len(out)) && sentlen(s.logins) == old(sentlen(s.logins))
+//@   ensures[werr] wfailed && !old(wfailed) ==> result != nil
 //@   ensures[one] len(out) == old(len(out)) || len(out) == old(len(out)) + 1
 //@   ensures[sendone] sentlen(s.logins) == old(sentlen(s.logins)) || sentlen(s.logins) == old(sentlen(s.logins)) + 1
 //@   ensures[send] sentlen(s.logins) == old(sentlen(s.logins)) + 1 ==> len(out) == old(len(out)) + 1 && out[old(len(out))].Outcome == "succeeded"
